@@ -3,6 +3,7 @@ package checks
 import (
 	"fmt"
 	"strings"
+	"sync"
 	"testing"
 	"time"
 
@@ -13,6 +14,7 @@ import (
 
 	"verif/harness/evid"
 	"verif/harness/fakecass"
+	"verif/harness/rawcli"
 	"verif/harness/wire"
 )
 
@@ -226,6 +228,116 @@ func c01FloodCheck(c c01Flood) *evid.Fail {
 	return nil
 }
 
+// exhaust-unprepared: nearly every backend stream id of the only connection is taken by held requests while a client
+// executes a prepared statement the host has forgotten and other clients keep sending. The proxy's re-PREPARE then
+// competes for the one free stream id with the other clients' requests and sometimes cannot be sent. Whatever happens,
+// each EXECUTE is owed exactly one answer.
+type c01Exhaust struct {
+	Held     int `json:"held"`     // requests parked at the backend (of 2048 stream ids)
+	Executes int `json:"executes"` // EXECUTEs of a forgotten statement, one after the other
+	Hammer   int `json:"hammer_clients"`
+}
+
+func c01ExhaustCheck(c c01Exhaust) *evid.Fail {
+	e, err := startEnv(envOpts{Hosts: 1, NumConns: 1, Keyspaces: []string{"ks1"}, HeartBeat: time.Hour, Idle: 2 * time.Hour})
+	if err != nil {
+		return evid.Failf("harness-env", "%v", err)
+	}
+	defer e.Close()
+	e.Cluster.UnpreparedAuto = true
+	holder, err := e.client(4, "")
+	if err != nil {
+		return evid.Failf("harness-client", "%v", err)
+	}
+	ex, err := newRunner(e, 4, "")
+	if err != nil {
+		return evid.Failf("harness-client", "%v", err)
+	}
+	ptok := nextToken()
+	id, err := ex.prepare("SELECT * FROM ks1.t WHERE k = ? AND tag = '" + prepTokenOf(ptok) + "'")
+	if err != nil {
+		return evid.Failf("harness-prepare", "%v", err)
+	}
+	// park c.Held requests
+	var buf []byte
+	for i := 0; i < c.Held; i++ {
+		tok := nextToken()
+		e.Cluster.Script(tok, []fakecass.Outcome{{Kind: "hold"}})
+		buf = append(buf, c02Query(4, int16(i), tok, "")...)
+	}
+	if err := holder.Send(buf); err != nil {
+		return evid.Failf("harness-send", "%v", err)
+	}
+	stallReset()
+	for deadline := time.Now().Add(posWait); len(e.Cluster.HeldTokens()) < c.Held; time.Sleep(time.Millisecond) {
+		if time.Now().After(deadline) {
+			if stalled(posWait) {
+				return evid.Failf("harness-stall", "stalled")
+			}
+			return evid.Failf("harness-hold", "only %d of %d requests parked", len(e.Cluster.HeldTokens()), c.Held)
+		}
+	}
+	// other clients keep the remaining stream ids busy
+	stop := make(chan struct{})
+	var wg sync.WaitGroup
+	for h := 0; h < c.Hammer; h++ {
+		hc, err := e.client(4, "")
+		if err != nil {
+			close(stop)
+			return evid.Failf("harness-client", "%v", err)
+		}
+		wg.Add(1)
+		go func(hc *rawcli.Client) {
+			defer wg.Done()
+			s := int16(0)
+			for {
+				select {
+				case <-stop:
+					return
+				default:
+				}
+				var b []byte
+				for k := 0; k < 8; k++ {
+					s = (s + 1) % 20000
+					b = append(b, c02Query(4, s, nextToken(), "")...)
+				}
+				from := hc.NumFrames()
+				if hc.Send(b) != nil {
+					return
+				}
+				hc.WaitN(from+8, time.Second)
+			}
+		}(hc)
+	}
+	defer func() { close(stop); wg.Wait(); e.Cluster.ReleaseAll() }()
+	for k := 0; k < c.Executes; k++ {
+		e.Cluster.Host(0).Forget()
+		tok := nextToken()
+		s := ex.nextStream()
+		from := ex.c.NumFrames()
+		_ = ex.c.SendMsg(4, s, &message.Execute{QueryId: id, Options: &message.QueryOptions{Consistency: primitive.ConsistencyLevelOne, PositionalValues: []*primitive.Value{primitive.NewValue([]byte(tok))}}}, false)
+		stallReset()
+		if ex.c.WaitStream(s, from, 1, posWait) == nil {
+			if stalled(posWait) {
+				return evid.Failf("harness-stall", "stalled")
+			}
+			return evid.Failf("no-reply:exhaust-unprepared", "EXECUTE %d of a statement the host had forgotten was never answered while %d of 2048 backend stream ids were held and %d other clients kept sending; backend saw [%s]", k, c.Held, c.Hammer, traceString(e.Cluster.Attempts(tok)))
+		}
+	}
+	_, _ = ex.c.Fence(4, posWait)
+	ex.c.Quiesce(5*time.Millisecond, 100*time.Millisecond)
+	per := map[int16]int{}
+	for _, fr := range ex.c.Frames() {
+		per[fr.F.Stream]++
+	}
+	for st, n := range per {
+		if n > 1 && st < 30000 && st > 100 {
+			return evid.Failf("two-replies:exhaust-unprepared", "stream %d got %d responses", st, n)
+		}
+	}
+	return nil
+}
+
 func TestC01(t *testing.T) {
 	rec := evid.New("C01", "fault_enumeration",
 		"1..4 clients (v3/v4, none/lz4/snappy) pipelining up to 25 (thorough 60) requests each - forwarded QUERY/EXECUTE/BATCH of both idempotency classes and locally answered frames - against 1..4 hosts x 1..2 connections whose per-attempt outcomes are scripted (every error kind, hold, silence, drop before/after reply) plus a schedule of releases and single/simultaneous connection drops; "+
@@ -248,6 +360,13 @@ func TestC01(t *testing.T) {
 		rec.Sample(stormSample(c))
 		return c
 	}, check)
+
+	runProp(t, rec, "exhaust-unprepared", perShard(evid.Pick(8, 200)), func(rt *rapid.T) c01Exhaust {
+		c := c01Exhaust{Held: rapid.SampledFrom([]int{2040, 2044, 2046, 2047}).Draw(rt, "held"), Executes: rapid.IntRange(10, 40).Draw(rt, "executes"), Hammer: rapid.IntRange(1, 3).Draw(rt, "hammer")}
+		rec.Case("exhaust:"+js(c), "exhaust-unprepared")
+		rec.Sample(c)
+		return c
+	}, c01ExhaustCheck)
 
 	runProp(t, rec, "flood", perShard(evid.Pick(24, 600)), func(rt *rapid.T) c01Flood {
 		c := c01Flood{N: rapid.IntRange(1100, 6000).Draw(rt, "n"), Mix: rapid.SampledFrom([]int{0, 1, 2, 7}).Draw(rt, "mix"),
